@@ -146,7 +146,7 @@ func init() {
 		ID:    "C12",
 		Level: "exploration",
 		Rule: "(a) every byte string of length <= 3 (quick) / <= 4 (thorough) over 22 YAML-significant bytes (incl. 0xFF) as a whole input file and spliced at three anchor points of a valid configuration; (b) 41 schema positions x 30 node shapes (null, bools, numbers, non-finite and overflowing numbers, strings, sequences, mappings with scalar / numeric / sequence keys, anchors and aliases, tags, timestamps, merge keys, block indicators) singly and (thorough: all; quick: every pair involving a composite shape in the first position) in pairs; " +
-			"(c) every glob pattern of length <= 3 (quick) / <= 4 (thorough) over {*, ?, [, ], \\, a, /, ., -, ^}; (c2) 1..100 -i patterns at once (matching nothing, the same file, a file each; next to a valid / an invalid file); (d) all 64 presence combinations of the 6 flags; (e) complete digraphs K2..K5 (thorough K6) as service and as parameter dependency graphs; (e2) layered acyclic graphs of depth 8 / 20 / 40 with 2^depth paths (service arguments, fields + calls, tags, decorators, parameters) x root and leaf scopes; (k) configurations producing exactly n diagnostics for n around 1, 10, 100, 256, 1000 in four classes x {plain, --quiet, --stub}; (f) nesting depth 2^k up to 4096 and names of 64 KiB; (g) every string of length <= 4 (quick) / <= 5 (thorough) over {(, ), \", a, +, [, ], ., comma, 1} as the argument text of env / envInt / todo chunks; (i) all 64 two-alias tables whose paths begin with aliases x 5 references; (j) input file names (non-ASCII, combining characters, invalid UTF-8, spaces, up to 240 bytes) x 3 contents x 3 ways of naming them; (h) all pairs and triples of the 11 semantic defects of C16 x 4 flag combinations. Oracle: returns, exit status 0 or 1, exit 0 => the output parses as Go, exit != 0 => no output written and (a third of the cases start with a long file at the output path) an existing file untouched; non-trivial = rejected or contains a non-alphanumeric byte; distinct = distinct input",
+			"(c) every glob pattern of length <= 3 (quick) / <= 4 (thorough) over {*, ?, [, ], \\, a, /, ., -, ^}; (c2) 1..100 -i patterns at once (matching nothing, the same file, a file each; next to a valid / an invalid file); (l) eleven output paths that cannot be written or inspected (file as parent, over-long name / path, link loop, directory, NUL, /dev/full ...) x valid / invalid input x {plain, quiet, stub}; (d) all 64 presence combinations of the 6 flags; (e) complete digraphs K2..K5 (thorough K6) as service and as parameter dependency graphs; (e2) layered acyclic graphs of depth 8 / 20 / 40 with 2^depth paths (service arguments, fields + calls, tags, decorators, parameters) x root and leaf scopes; (k) configurations producing exactly n diagnostics for n around 1, 10, 100, 256, 1000 in four classes x {plain, --quiet, --stub}; (f) nesting depth 2^k up to 4096 and names of 64 KiB; (g) every string of length <= 4 (quick) / <= 5 (thorough) over {(, ), \", a, +, [, ], ., comma, 1} as the argument text of env / envInt / todo chunks; (i) all 64 two-alias tables whose paths begin with aliases x 5 references; (j) input file names (non-ASCII, combining characters, invalid UTF-8, spaces, up to 240 bytes) x 3 contents x 3 ways of naming them; (h) all pairs and triples of the 11 semantic defects of C16 x 4 flag combinations. Oracle: returns, exit status 0 or 1, exit 0 => the output parses as Go, exit != 0 => no output written and (a third of the cases start with a long file at the output path) an existing file untouched; non-trivial = rejected or contains a non-alphanumeric byte; distinct = distinct input",
 		Assumptions: []string{"a hang is one invocation exceeding the 60 s tool watchdog in the worker and in three isolated re-runs; cases slower than 20 s are listed as notes, never as violations", "printer write errors (closed stdout) are outside the input space", "glob patterns that start with / or contain .. are not generated: they match files outside the case directory (devices, /proc), which are not inputs of bounded size"},
 		BudgetQuick: 280 * time.Second, BudgetThorough: 1700 * time.Second,
 		Run: func(w *W) {
@@ -263,6 +263,53 @@ func init() {
 						c.Distinct("nontrivial", id)
 						c12check(c, id, files, append(args, "-o", "out.go"), "many-patterns")
 					})
+				}
+			}
+			// (l) output paths that cannot be written or not even inspected: status 1, no panic, whatever the flags
+			for oi, o := range []struct {
+				id, path string
+				setup    func()
+			}{
+				{"parent-is-a-file", "blocker/out.go", func() { os.WriteFile("blocker", []byte("x"), 0o644) }},
+				{"name-too-long", strings.Repeat("n", 300) + ".go", func() {}},
+				{"path-too-long", strings.Repeat("d/", 2500) + "out.go", func() {}},
+				{"symlink-loop", "loop/out.go", func() { os.Symlink("loop", "loop") }},
+				{"is-a-directory", "outdir", func() { os.MkdirAll("outdir/sub", 0o755) }},
+				{"missing-parent", "no/such/dir/out.go", func() {}},
+				{"empty-name", "", func() {}},
+				{"nul-in-name", "a\x00b.go", func() {}},
+				{"dangling-symlink", "dangling.go", func() { os.Symlink("nowhere/else.go", "dangling.go") }},
+				{"dev-null", "/dev/null", func() {}},
+				{"dev-full", "/dev/full", func() {}},
+			} {
+				for _, flags := range [][]string{nil, {"--quiet"}, {"--stub"}} {
+					for _, ok := range []bool{true, false} {
+						oi, o, flags, ok := oi, o, flags, ok
+						id := fmt.Sprintf("output-path/%d-%s/valid=%v/%v", oi, o.id, ok, flags)
+						w.Case(id, func(c *C) {
+							w.FreshDir()
+							content := valid
+							if !ok {
+								content = "parameters: {p: \"%nope%\"}\n"
+							}
+							os.WriteFile("c.yaml", []byte(content), 0o644)
+							o.setup()
+							args := append([]string{"-i", "c.yaml", "-o", o.path}, flags...)
+							r := Tool("1.0.0", "1.0.0 unknown", args...)
+							c.Count("runs")
+							c.Distinct("all", id)
+							c.Distinct("nontrivial", id)
+							fm := map[string]string{"c.yaml": content}
+							if r.Panic != "" {
+								first := strings.SplitN(r.Panic, "\n", 2)[0]
+								c.Violation("panic:output-path:"+compilerKey(first), fmt.Sprintf("the command panicked (%s): %s", id, r.Panic), fm, map[string]any{"args": args})
+								return
+							}
+							if o.id != "dev-null" && r.Exit == 0 {
+								c.Violation("exit0-unwritable-output:"+o.id, "exit 0 although the output path cannot hold the file ("+id+")", fm, map[string]any{"args": args})
+							}
+						})
+					}
 				}
 			}
 			// (d) flag presence
